@@ -19,6 +19,7 @@ What is TRANSLATED (holes of the templates; a change of any of them changes the 
                                                                                           -> g_sanity_check
   Request_element.__init__                       condition and value of spacing, power, channel count, bandwidth
                                                                                           -> g_spacing, g_power, g_nbch, g_bw
+  corresp_next_node                              the classes passed over by the walk to the next site -> g_skipped_kind
   correct_xls_route_list                         the pop-source / pop-destination statements (as statements: an `elif`
                                                  nests the second test), the index written back -> g_pop_ends, g_writeback
 What is only TEMPLATE-MATCHED (must stay exactly as it is, not translated): everything else in these functions (dict
@@ -657,6 +658,45 @@ def gen_route(tree, out):
     out.append(f'Definition g_writeback (i : nat) (n s : string) (live : list string) : list string := {wb}.\n')
 
 
+# ------------------------------------------------------------------ corresp_next_node: what the walk to the next site skips
+NEXT_NODE = """
+next_node = {}
+for ila_key, ila_list in corresp_ila.items():
+    temp = copy(ila_list)
+    for ila_elem in ila_list:
+        correct_ila_name = next((n.uid for n in network.nodes() if ila_elem in n.uid))
+        temp.remove(ila_elem)
+        temp.append(correct_ila_name)
+        ila_nd = next((n for n in network.nodes() if ila_elem in n.uid))
+        next_nd = next(network.successors(ila_nd))
+        while isinstance(next_nd, H_kinds):
+            next_nd = next(network.successors(next_nd))
+        for key, val in corresp_roadm.items():
+            if next_nd.uid in val:
+                next_node[correct_ila_name] = key
+                break
+        if correct_ila_name not in next_node:
+            for key, val in corresp_ila.items():
+                if [e for e in val if e in next_nd.uid]:
+                    next_node[correct_ila_name] = key
+                    break
+    corresp_ila[ila_key] = temp
+return (corresp_ila, next_node)
+"""
+KINDS = {'Fiber': 'KFiber', 'Fused': 'KFused', 'Edfa': 'KEdfa', 'Roadm': 'KRoadm', 'Transceiver': 'KTrx'}
+
+
+def gen_next_node(tree, out):
+    b = match(NEXT_NODE, strip_doc(find(tree, 'corresp_next_node').body), 'corresp_next_node')
+    k = b['H_kinds']
+    names = [k] if isinstance(k, ast.Name) else list(k.elts) if isinstance(k, ast.Tuple) else None
+    if not names or not all(isinstance(x, ast.Name) and x.id in KINDS for x in names):
+        raise Unsupported(f'corresp_next_node: classes skipped by the walk: {src(k)}')
+    pats = ' | '.join(dict.fromkeys(KINDS[x.id] for x in names))
+    out.append('(* convert.py: corresp_next_node - the element classes the walk to the next ROADM / amplifier passes over *)')
+    out.append(f'Definition g_skipped_kind (k : ekind) : bool := match k with {pats} => true | _ => false end.\n')
+
+
 PREAMBLE = """(* GENERATED on every run by harness/pygen_c20.py from gnpy/tools/convert.py and gnpy/tools/service_sheet.py of the
    source tree - do not edit. *)
 From Coq Require Import QArith.
@@ -695,6 +735,7 @@ def generate(repo=None):
     gen_fiber_link(conv, out)
     gen_ein(conv, out)
     gen_sanity(conv, out)
+    gen_next_node(conv, out)
     gen_request(svc, out)
     gen_route(svc, out)
     return '\n'.join(out)
